@@ -47,9 +47,9 @@ def hookOf (t : Thread) : Option String :=
     | .removeInformer g => some s!"p:RI:{g}"
     | _ => none
   | .stNC n => some s!"p:NC:{n}"
-  | .spGI _ _ wid _ | .swGI _ _ wid _ | .xwGI _ wid _ _ _ => some s!"p:GI:{wid.gvk}"
+  | .spGI _ _ wid _ | .swGI _ _ _ wid _ | .xwGI _ wid _ _ _ => some s!"p:GI:{wid.gvk}"
   | .spRH _ _ _ reg _ | .xwRH _ _ reg _ _ _ => some s!"p:RH:{reg}"
-  | .swAH _ _ wid _ _ => some s!"p:AH:{wid.gvk}"
+  | .swAH _ _ _ wid _ _ => some s!"p:AH:{wid.gvk}"
   | .swAI _ _ | .swAI2 _ _ => some "p:AI:0"
   | _ => none
 
